@@ -88,13 +88,17 @@ def validTimeComps : DicomTime → Bool
   | .fraction h m s f fp => h ≤ 23 && m ≤ 59 && s ≤ 60 && 1 ≤ fp && fp ≤ 6 && f < 10 ^ fp
 def timeIsLeap : DicomTime → Bool
   | .second _ _ s => s == 60 | .fraction _ _ s _ _ => s == 60 | _ => false
+/-- leap second `hh:mm:60.f` = chrono's `hh:mm:59` plus `1_000_000 + f` microseconds -/
 def timeEarliest : DicomTime → String
-  | .hour h => dots [h, 0, 0, 0] | .minute h m => dots [h, m, 0, 0] | .second h m s => dots [h, m, s, 0]
-  | .fraction h m s f fp => dots [h, m, s, f * 10 ^ (6 - fp)]
+  | .hour h => dots [h, 0, 0, 0] | .minute h m => dots [h, m, 0, 0]
+  | .second h m s => if s == 60 then dots [h, m, 59, 1000000] else dots [h, m, s, 0]
+  | .fraction h m s f fp =>
+    if s == 60 then dots [h, m, 59, 1000000 + f * 10 ^ (6 - fp)] else dots [h, m, s, f * 10 ^ (6 - fp)]
 def timeLatest : DicomTime → String
   | .hour h => dots [h, 59, 59, 999999] | .minute h m => dots [h, m, 59, 999999]
-  | .second h m s => dots [h, m, s, 999999]
-  | .fraction h m s f fp => dots [h, m, s, (f + 1) * 10 ^ (6 - fp) - 1]
+  | .second h m s => if s == 60 then dots [h, m, 59, 1999999] else dots [h, m, s, 999999]
+  | .fraction h m s f fp =>
+    if s == 60 then dots [h, m, 59, 1000000 + (f + 1) * 10 ^ (6 - fp) - 1] else dots [h, m, s, (f + 1) * 10 ^ (6 - fp) - 1]
 
 /-- the (padded) length a list of items of text length `n` must report: items joined by `\`, even -/
 def padded (n k : Nat) : Nat := let t := k * (n + 1); t - t % 2
@@ -168,7 +172,7 @@ def checkTimeTok (v : DicomTime) (mv : Option DicomTime) (tok : String) : Option
       some s!"PROP-FAIL class=time-roundtrip {showTime v} enc={enc} parsed={parsed} eq={eq}"
     else if l1 != toString (Spec.padded (hexLen enc) 1) || l2 != toString (Spec.padded (hexLen enc) 2) then
       some s!"PROP-FAIL class=time-length {showTime v} enc={enc} len1={l1} len2={l2}"
-    else if Spec.timeIsLeap v && (e == "E" || l == "E") then
+    else if Spec.timeIsLeap v && (e != Spec.timeEarliest v || l != Spec.timeLatest v) then
       some s!"PROP-FAIL class=leap-second-bounds {showTime v} earliest={e} latest={l}"
     else if !Spec.timeIsLeap v && (e != Spec.timeEarliest v || l != Spec.timeLatest v) then
       some s!"PROP-FAIL class=time-bounds {showTime v} earliest={e} latest={l}"
@@ -188,7 +192,8 @@ def checkTimeTok (v : DicomTime) (mv : Option DicomTime) (tok : String) : Option
       if me != e || ml != l then some s!"MODEL-DIFF time-bounds {showTime v} model={me},{ml} impl={e},{l}" else none
   | _ => some "BAD-LINE"
 
-/-- the leap-second finding is reported after everything else on the line has been compared -/
+/-- a leap-second failure (class kept from the finding fixed by /repo 011408a) is reported after
+everything else on the line has been compared -/
 def isLeapFinding (s : String) : Bool := s.startsWith "PROP-FAIL class=leap-second-bounds"
 
 /-! ### exhaustive blocks -/
@@ -281,7 +286,7 @@ def handleTf (v : DicomTime) (how : String) (rest : List String) : String :=
     | some f => f
     | none =>
       -- a precise instant consistent with the value must lie between the bounds
-      if !Spec.timeIsLeap v && inst != "n" && flags != "11" then
+      if inst != "n" && flags != "11" then
         s!"PROP-FAIL class=time-instant-outside {showTime v} instant={inst} flags={flags}"
       else
       match mv with
@@ -385,7 +390,7 @@ def handleDt (ds ts os : String) (rest : List String) : String :=
     | [enc, parsed, eq, l1, l2, e, l, isp, exact, inst, flags] =>
       let leap := match v.time with | some t => Spec.timeIsLeap t | none => false
       let leapFinding : Option String :=
-        if valid && leap && Spec.dateDenotes v.date && (e == "E" || l == "E") then
+        if valid && leap && Spec.dateDenotes v.date && (dropMicros e != specDtEarliest v || dropMicros l != specDtLatest v) then
           some s!"PROP-FAIL class=leap-second-bounds datetime {showDT v} earliest={e} latest={l}" else none
       let oracle : Option String :=
         if !valid then none
@@ -393,8 +398,8 @@ def handleDt (ds ts os : String) (rest : List String) : String :=
           some s!"PROP-FAIL class=datetime-roundtrip {showDT v} enc={enc} parsed={parsed} eq={eq}"
         else if l1 != toString (Spec.padded (hexLen enc) 1) || l2 != toString (Spec.padded (hexLen enc) 2) then
           some s!"PROP-FAIL class=datetime-length {showDT v} enc={enc} len1={l1} len2={l2}"
-        else if Spec.dateDenotes v.date && !leap then
-          if dropMicros e != specDtEarliest v || dropMicros l != specDtLatest v then
+        else if Spec.dateDenotes v.date then
+          if !leap && (dropMicros e != specDtEarliest v || dropMicros l != specDtLatest v) then
             some s!"PROP-FAIL class=datetime-bounds {showDT v} earliest={e} latest={l}"
           else if inst != "n" && flags != "11" then
             some s!"PROP-FAIL class=datetime-instant-outside {showDT v} instant={inst} flags={flags}"
@@ -517,8 +522,11 @@ def handleXr (mal mode a b ea lb text out : String) : String :=
   | some bytes =>
     let amb := if mode == "0" then Ambig.toKnown else if mode == "1" then Ambig.failOn else Ambig.ignoreTz
     let sameKind := a == "n" || b == "n" || preciseKind ea == preciseKind lb || ea == "E" || lb == "E"
+    -- an inverted range (earliest A after latest B) denotes no interval; with two dashes the code then
+    -- tries the other dash and may build some other range (the statement makes no claim there)
+    let invertedTwoDash := lePrecise ea lb == some false && (dashIndexes bytes).length == 2
     let oracle : Option String :=
-      if mal == "0" && sameKind && !dashCaveat a b then
+      if mal == "0" && sameKind && !dashCaveat a b && !invertedTwoDash then
         let kind := if ea != "n" && ea != "E" then preciseKind ea else preciseKind lb
         match rangeExpect ea lb lePrecise with
         | some exp =>
@@ -534,7 +542,7 @@ def handleXr (mal mode a b ea lb text out : String) : String :=
       else if mal == "1" then s!"ok xr-malformed-{if out == "E" then "err" else "ok"}"
       else
         let k (s : String) := if s == "n" then "open" else if s == "E" then "nobound" else preciseKind s
-        s!"ok xr-m{mode}-{k ea}-{k lb}-{(dashIndexes bytes).length}dash{if dashCaveat a b then "-caveat" else ""}-{if out == "E" then "err" else "ok"}"
+        s!"ok xr-m{mode}-{k ea}-{k lb}-{(dashIndexes bytes).length}dash{if dashCaveat a b then "-caveat" else ""}{if invertedTwoDash then "-inverted" else ""}-{if out == "E" then "err" else "ok"}"
 
 def handlePx (kind text out : String) : String :=
   match unhex text with
